@@ -233,6 +233,8 @@ def run(prop, tier, vseed):
         for a, f, c in pool.imap_unordered(work, tasks, chunksize=8):
             nev += a
             failures.extend(f)
+            if len(failures) > 20000:
+                failures = report.compact(failures)
             classes.add(c)
     cov = {
         "states": len(tasks),
